@@ -567,3 +567,153 @@ func ruleUntrustedSize(r *Run) {
 	}
 	r.Min("allocations_on_open_path", n, 3)
 }
+
+// ---------------------------------------------------------------------------
+// R-REL-APPEND-ONLY (C02, C04): once a relationship is in a document's list it stays there with
+// its id, type and target — references in the body (and in parts the library does not parse)
+// point at it.  Outside the reader, the constructors and the clone code, the only thing that may
+// be done to a Relationships.Relationships list of an existing document is to append to it.
+// ---------------------------------------------------------------------------
+
+func ruleRelAppendOnly(r *Run) {
+	p := r.P
+	reader := buildReaderModel(p)
+	clones := map[*ssa.Function]bool{}
+	for _, c := range discoverClones(p, pkgDoc) {
+		clones[c.Fn] = true
+	}
+	n := 0
+	for _, fn := range p.ModFuncs() {
+		if fn.Pkg == nil || fn.Pkg.Pkg.Path() != pkgDoc {
+			continue
+		}
+		top := topLevel(fn)
+		idx := 0
+		allInstrs(fn, func(in ssa.Instruction) {
+			st, ok := in.(*ssa.Store)
+			if !ok {
+				return
+			}
+			// element store list[i] = … or field store list = …
+			target := st.Addr
+			elemStore := false
+			if ia, ok := target.(*ssa.IndexAddr); ok {
+				target, elemStore = ia.X, true
+				if ld, ok := target.(*ssa.UnOp); ok {
+					target = ld.X
+				}
+			}
+			ch, root := addrChain(target)
+			if len(ch) == 0 || !fieldIs(p, ch[len(ch)-1], pkgDoc, "Relationships", "Relationships") {
+				return
+			}
+			// a list being built for a struct created here (constructors, parse results, clones)
+			if _, fresh := stripLoads(root).(*ssa.Alloc); fresh && len(ch) == 1 {
+				return
+			}
+			if reader.IsReader[top] || clones[top] || strings.HasPrefix(top.Name(), "parse") {
+				return
+			}
+			n++
+			idx++
+			shape := "rebuild"
+			if elemStore {
+				shape = "replace-at-index"
+			} else if c, ok := st.Val.(*ssa.Call); ok {
+				if b, ok := c.Call.Value.(*ssa.Builtin); ok && b.Name() == "append" {
+					if ld, ok := c.Call.Args[0].(*ssa.UnOp); ok && pathString(ld.X) == pathString(st.Addr) {
+						shape = "append-at-end"
+					}
+				}
+			} else if _, ok := st.Val.(*ssa.MakeSlice); ok {
+				shape = "init"
+			} else if _, ok := st.Val.(*ssa.Slice); ok {
+				if c, isConstLit := stripLoads(st.Val.(*ssa.Slice).X).(*ssa.Alloc); isConstLit && c != nil {
+					shape = "init" // composite literal []Relationship{…}
+				}
+			}
+			okc := shape == "append-at-end" || (shape == "init" && isDocConstructor(top))
+			r.Check("rel-append-only", fmt.Sprintf("%s#%d:%s", shortName(top), idx, shape), st.Pos(), okc,
+				fmt.Sprintf("%s changes a relationship list by %s; relationships of an existing document may only be appended (removing or rewriting one leaves the references that use its id dangling and loses relationships of an opened package)", shortName(top), shape))
+		})
+	}
+	r.Min("relationship_list_stores", n, 10)
+}
+
+// isDocConstructor: functions that create the Document they fill (New, openFromZipReader, …).
+func isDocConstructor(fn *ssa.Function) bool {
+	res := fn.Signature.Results()
+	for i := 0; i < res.Len(); i++ {
+		if typeIs(res.At(i).Type(), pkgDoc, "Document") {
+			return true
+		}
+	}
+	return false
+}
+
+// ---------------------------------------------------------------------------
+// R-ALLOC-SCANS-ALL (C02, C10, C11): an allocator that derives a fresh id from the ids present must
+// look at EVERY id.  In each function that computes a string from a []Relationship parameter, the
+// loops that read Relationship.ID must not be left early (break / return inside the body):
+// ids of an opened package are in no particular order.
+// ---------------------------------------------------------------------------
+
+func ruleAllocScansAll(r *Run) {
+	p := r.P
+	n := 0
+	for _, fn := range p.ModFuncs() {
+		if fn.Pkg == nil || fn.Pkg.Pkg.Path() != pkgDoc || fn.Parent() != nil {
+			continue
+		}
+		if fn.Signature.Results().Len() != 1 || !isStringType(fn.Signature.Results().At(0).Type()) {
+			continue
+		}
+		takesRels := false
+		for _, par := range fn.Params {
+			if s, ok := par.Type().Underlying().(*types.Slice); ok && typeIs(s.Elem(), pkgDoc, "Relationship") {
+				takesRels = true
+			}
+		}
+		if !takesRels {
+			continue
+		}
+		for li, l := range naturalLoops(fn) {
+			readsID := false
+			for b := range l.Body {
+				for _, in := range b.Instrs {
+					var fv *types.Var
+					switch x := in.(type) {
+					case *ssa.FieldAddr:
+						fv, _ = fieldOfAddr(x)
+					case *ssa.Field:
+						fv, _ = fieldOfVal(x)
+					}
+					if fieldIs(p, fv, pkgDoc, "Relationship", "ID") {
+						readsID = true
+					}
+				}
+			}
+			if !readsID {
+				continue
+			}
+			n++
+			early := ""
+			for b := range l.Body {
+				if b == l.Header {
+					continue
+				}
+				for _, s := range b.Succs {
+					if !l.Body[s] {
+						early = p.pos(b.Instrs[len(b.Instrs)-1].Pos())
+						if early == "" || early == "-" {
+							early = fmt.Sprintf("block %d", b.Index)
+						}
+					}
+				}
+			}
+			r.Check("alloc-scans-all", fmt.Sprintf("%s:loop#%d", shortName(fn), li), l.Header.Instrs[0].Pos(), early == "",
+				fmt.Sprintf("%s derives a new id from the ids in the list; the loop that reads them %s", shortName(fn), map[bool]string{true: "visits every element", false: "can be left before every element has been seen (" + early + "): with ids in arbitrary order (any package written by another application) an id that is already taken is handed out"}[early == ""]))
+		}
+	}
+	r.Min("id_scanning_loops", n, 1)
+}
